@@ -133,6 +133,12 @@ def sym_spsolve(A, b):
     xn = _x_names(n, k - getattr(CTX, "sys_base", 0))
     rec["xnames"] = xn
     x = _np.array([Sym(z3.Real(nm)) for nm in xn], dtype=object)
+    xf = getattr(CTX, "x_xform", None)
+    if xf is not None:
+        # a run that describes the same state in other coordinates (reversed branch, shifted
+        # pressures) receives the same update in its own coordinates
+        x = _np.array([xf(nm, v) for nm, v in zip(xn, x)], dtype=object)
+        rec["x_is_mapped"] = True
     cons = []
     rows = {}
     for (r, c), v in ent.items():
@@ -146,7 +152,7 @@ def sym_spsolve(A, b):
         cons.append(lhs == _t(b[r]))
     rec["x"] = x
     rec["cons"] = cons
-    if ENG.witness is not None:
+    if ENG.witness is not None and not all(dict.__contains__(ENG.witness, nm) for nm in xn):
         _witness_solve(ent, b, n, k, xn)
     CTX.systems.append(rec)
     for c in cons:
